@@ -844,3 +844,21 @@ func normCallName(n string) string {
 	}
 	return n
 }
+
+// takesEffectBefore: instruction a takes effect before instruction b inside fi's region -
+// decided in the first function of the region in which both (or the calls leading to them)
+// are written at different places. decided is false when no function of the region sees both.
+func (w *World) takesEffectBefore(fi *FuncInfo, a, b ssa.Instruction) (before, decided bool) {
+	for _, f := range w.regionFns(fi.SSA) {
+		ha, hb := w.hostCallsIn(f, a), w.hostCallsIn(f, b)
+		if len(ha) == 0 || len(hb) == 0 {
+			continue
+		}
+		pa, pb := ha[0].Pos(), hb[0].Pos()
+		if pa == pb {
+			continue
+		}
+		return pa < pb, true
+	}
+	return false, false
+}
